@@ -6,7 +6,7 @@ want="$*"
 for d in seeded/*/; do
   id=$(basename "$d"); prop=${id%%-*}
   if [ -n "$want" ] && ! echo " $want " | grep -q " $prop "; then continue; fi
-  out=$(./selftest/mut.sh "$d/patch.diff" "$prop" 2>&1)
+  out=$(./selftest/mut.sh "/verif/${d}patch.diff" "$prop" 2>&1)
   if echo "$out" | grep -q "^VIOLATION property=$prop"; then
     ob=$(echo "$out" | grep "^VIOLATION property=$prop" | sed 's/.*obligation=\([^ ]*\).*/\1/' | sort -u | head -3 | tr '\n' ' ')
     echo "caught  $id  by $ob"
